@@ -6,6 +6,7 @@ Everything is recomputed from the leaves of the topology; aggregates kept by
 the scheduler are only ever compared against the recount, never trusted.
 """
 
+import math
 import sys
 
 import simkit  # noqa: F401
@@ -117,7 +118,13 @@ def check_c01(ctx):
                         '%s: sum of demand %r > capacity %r (apps %s)' % (
                             sname, total, cap, sorted(srv.apps)))
             free = float(srv.free_capacity[d])
-            if abs(free - (cap[d] - total[d])) > 1e-6 * max(1.0, abs(cap[d])):
+            want = cap[d] - total[d]
+            if cap[d] != math.floor(cap[d]):
+                # a declared capacity that is not a whole number of the
+                # reporting unit: the report may not overstate what is left
+                # and is less than one unit below it
+                want = math.floor(want + tol)
+            if abs(free - want) > 1e-6 * max(1.0, abs(cap[d])):
                 return ('C01:free-capacity-drift:%s' % DIMS[d],
                         '%s: free_capacity %r != capacity %r - placed %r' % (
                             sname, [float(x) for x in srv.free_capacity],
@@ -395,6 +402,26 @@ def check_c06(ctx):
                 return ('C06:priority-zero-not-last',
                         '%s (priority %s) follows priority-0 %s at rank %s' % (
                             ent[5], prio, zero_seen[ent[0]], ent[0]))
+        # (d') the same, reading "rank" as the rank of the allocation: a
+        # priority-0 instance that is scheduled at all is not ahead of a
+        # non-zero-priority instance of an allocation of the same rank
+        zero_nominal = {}
+        for ent in entries:
+            if ent[0] == UNPLACED:
+                continue
+            info = ctx.truth.alloc_info(ctx.truth.alloc_of(ent[5]))
+            if info is None:
+                continue
+            prio = ctx.pre[ent[5]].priority
+            if prio == 0:
+                zero_nominal.setdefault(info['rank'], ent)
+            elif info['rank'] in zero_nominal:
+                first = zero_nominal[info['rank']]
+                return ('C06:priority-zero-ahead-of-same-rank-allocation',
+                        '%s (priority 0, queued with rank %s) precedes %s '
+                        '(priority %s, queued with rank %s); both allocations '
+                        'have rank %s' % (first[5], first[0], ent[5], prio,
+                                          ent[0], info['rank']))
         # (c), (e), (f) per allocation, in queue order
         per_alloc = {}
         for ent in entries:
@@ -562,8 +589,18 @@ def check_c08(ctx):
                     _valid_for(ctx, name, pre.server) is None)
         if not eligible:
             continue
+        told_gone = None
+        absent_fn = getattr(ctx.truth, 'absent_interval', None)
+        if state != 'down' and absent_fn is not None:
+            # master level: the master has been told that the server is gone
+            # (presence snapshot handled) and nothing changed its state
+            # since; the server went down then, even if the model did not
+            # take note
+            told_gone = absent_fn(pre.server)
+            if told_gone is not None:
+                state = 'down'
         if state == 'down':
-            interval = ctx.truth.down_interval(pre.server)
+            interval = told_gone or ctx.truth.down_interval(pre.server)
             if interval is None:
                 continue
             smin, smax = interval
